@@ -127,6 +127,14 @@ where
         self.initial_cluster_size
     }
 
+    /// The start-up configuration alone is not enough: a node bootstrapped alone and expanded
+    /// later has voting peers, and must not take the single-node shortcuts (an election won
+    /// without collecting votes). Only a cluster that started single-node AND still has no
+    /// other voter is single-node.
+    async fn is_single_node_cluster(&self) -> bool {
+        self.initial_cluster_size == 1 && self.voters().await.is_empty()
+    }
+
     async fn nodes_with_status(
         &self,
         status: NodeStatus,
